@@ -127,7 +127,7 @@ def _variants(fd):
     return out
 
 
-def translate(repo_root='/repo'):
+def translate(repo_root=os.environ.get('VERIF_REPO', '/repo')):
     g = os.path.join(repo_root, 'pyroll/core/grooves')
     tree = ast.parse(open(os.path.join(g, 'generic_elongation_solvers.py')).read())
     out = {}
@@ -252,7 +252,7 @@ def translate(repo_root='/repo'):
     return out
 
 
-def generate(repo_root='/repo'):
+def generate(repo_root=os.environ.get('VERIF_REPO', '/repo')):
     d = translate(repo_root)
     L = ["(* GENERATED by tools/py2coq/solvers_te.py from generic_elongation_solvers.py, diamond.py, generic_elongation.py. Do not edit. *)",
          "From PyrollLib Require Import Expr.", "Open Scope string_scope.", ""]
